@@ -147,10 +147,20 @@ pub fn queries(xs: &[i64]) -> Vec<i64> {
 
 /// node times of long curves: grid 0 = uneven (gap pattern from `mult`), 1 = evenly spaced weekly, 2 = weekly
 /// with interior nodes moved off the grid (first step, last step and total span unchanged), 3 = daily nodes
-/// followed by yearly nodes, 4 = yearly nodes followed by daily nodes
+/// followed by yearly nodes, 4 = yearly nodes followed by daily nodes, 5 = uneven grid starting 200 days before
+/// 1970-01-01 (negative timestamps)
 pub fn grid_times(n: usize, grid: u8, mult: usize) -> Vec<i64> {
     match grid {
         0 => node_times(&(0..n - 1).map(|i| ((i * mult + 1) % 3) as u8).collect::<Vec<u8>>()),
+        5 => {
+            // uneven grid that starts before 1970-01-01 and crosses it (negative timestamps)
+            let mut v = vec![-200 * DAY];
+            for i in 0..n - 1 {
+                let last = *v.last().unwrap();
+                v.push(last + GAPS[(i * mult + 1) % 2] * DAY);
+            }
+            v
+        }
         3 | 4 => {
             // a dense end and a sparse end: two thirds of the gaps are one day, the others one year
             let dense = 2 * (n - 1) / 3;
